@@ -103,6 +103,13 @@ func Families(tier string) []Family {
 			v.DefI = 1
 			c.Opts = []OptCfg{opt("string", "s", 1, "str"), opt("sopt", "so", 1), opt("bool", "b", 1), nb, v}
 			f.Defs = append(f.Defs, Def{Cfg: c, Tokens: toks, L: lim(tier, 3, 4)})
+			if mode == 1 {
+				// flags bundled with an undeclared letter that is passed through: the declared letters around it count
+				cp := Cfg{Mode: 1}
+				cp.Nodes = []NodeCfg{rootNode(2, false)}
+				cp.Opts = []OptCfg{v, opt("bool", "b", 1), nb}
+				f.Defs = append(f.Defs, Def{Cfg: cp, Tokens: Ts("-vuv", "-ub", "-bu", "-vunb", "-v", "--b", "x"), L: lim(tier, 3, 4)})
+			}
 			if mode < 2 {
 				// what was given before a wrapper command or the help command is still reported by the top-level object
 				cw := Cfg{Mode: mode}
@@ -247,8 +254,10 @@ func Families(tier string) []Family {
 				// names with multi-byte characters abbreviated at every character boundary
 				cu := Cfg{Mode: mode}
 				cu.Nodes = []NodeCfg{rootNode(2, false)}
-				cu.Opts = []OptCfg{opt("string", "größe", 1), opt("bool", "maße", 1), opt("bool", "maßstab", 1), opt("bool", "日本語", 1)}
-				f.Defs = append(f.Defs, Def{Cfg: cu, Tokens: Ts("--grö", "--größ", "--größe=x", "--g", "--maß", "--maße", "--ma", "--日", "--日本", "-grö", "x"), L: lim(tier, 3, 3)})
+				// é and è are names of their own that share their first byte: each one is an exact name, never a prefix
+				cu.Opts = []OptCfg{opt("string", "größe", 1), opt("bool", "maße", 1), opt("bool", "maßstab", 1), opt("bool", "日本語", 1),
+					opt("bool", "é", 1), opt("bool", "è", 1)}
+				f.Defs = append(f.Defs, Def{Cfg: cu, Tokens: Ts("--grö", "--größ", "--größe=x", "--g", "--maß", "--maße", "--ma", "--日", "--日本", "-grö", "x", "-é", "-éè"), L: lim(tier, 3, 3)})
 			}
 			if mode < 2 {
 				// a wrapper (UnsetOptions) sees neither the names nor the aliases of the options above it: -q / --q / --qu mean
@@ -405,6 +414,14 @@ func Families(tier string) []Family {
 				c.Nodes = []NodeCfg{rootNode(um, false), cmdNode("cmd", 1, um, false, true)}
 				c.Opts = []OptCfg{opt("bool", "b", 1), multi("islice", "n", 1, 1, 2), multi("fslice", "f", 1, 1, 2), multi("smap", "m", 1, 1, 2)}
 				f.Defs = append(f.Defs, Def{Cfg: c, Tokens: toks, L: lim(tier, 3, 4)})
+				if mode == 0 {
+					// the same under require-order: what ends a typed intake is looked at like any other token - a command
+					// name still selects the command, text is the stop point
+					cr := Cfg{Mode: 0}
+					cr.Nodes = []NodeCfg{rootNode(um, true), cmdNode("cmd", 1, um, true, true)}
+					cr.Opts = []OptCfg{opt("bool", "b", 1), multi("islice", "n", 1, 1, 2), multi("fslice", "f", 1, 1, 2), multi("smap", "m", 1, 1, 2), opt("bool", "c", 2)}
+					f.Defs = append(f.Defs, Def{Cfg: cr, Tokens: Ts("--n", "--f=1.5", "--m", "1", "k=v", "a", "--b", "cmd", "--c", "--n=1"), L: lim(tier, 4, 5)})
+				}
 			}
 		}
 		fams = append(fams, f)
@@ -814,6 +831,10 @@ func Families(tier string) []Family {
 					o.ArgName = T("thing")
 				}
 				o.DefB = ki%2 == 0 && variant%2 == 0
+				if (kind == "string" || kind == "sopt") && variant%3 == 1 {
+					// the default is shown as it is: backslashes, quotes, a tab and a format verb included
+					o.DefT = T("C:\\tmp\\out \"q\"\t%d 'x'")
+				}
 				c.Opts = append(c.Opts, o)
 			}
 			if variant >= 3 {
